@@ -2,11 +2,13 @@ package c18
 
 import (
 	"context"
+	"errors"
 	"fmt"
 	"math"
 	"sort"
 	"strings"
 	"sync/atomic"
+	"unicode/utf8"
 
 	"github.com/go-logr/logr"
 	"github.com/prometheus/client_golang/prometheus"
@@ -55,6 +57,20 @@ type plan struct {
 	typeConflict, helpConflict bool
 	// same instrument name and unit, another data shape (classes)
 	twins, twinsSameScope bool
+	// elements Prometheus cannot represent (see unrep_test.go)
+	badResource bool   // the resource as target_info labels
+	badConst    bool   // the resource attributes kept as constant labels
+	badScope    []bool // per scope: its otel_scope_info labels (false when scope info is off)
+	badTuple    bool   // an attribute set of an instrument
+	unrep       bool   // any of them
+	// an observable callback of the case returns an error (Inst.ObsFail)
+	obsFail bool
+}
+
+// readerFailed: did the ManualReader fail for a reason other than the
+// callback failures the case contains (which it passes on after collecting)?
+func (p *plan) readerFailed(err error) bool {
+	return err != nil && !(p.obsFail && errors.Is(err, errCallback))
 }
 
 // shape is the kind of data an instrument produces.
@@ -90,6 +106,16 @@ func dataShape(a metricdata.Aggregation) string {
 	return ""
 }
 
+// representableKeys: every key is valid UTF-8.
+func (p *plan) representableKeys(as []Attr) bool {
+	for _, a := range as {
+		if !utf8.ValidString(dec(a.K)) {
+			return false
+		}
+	}
+	return true
+}
+
 func (p *plan) strong() bool {
 	return !p.clash && !p.odd && !p.alias && !p.scopeAlias && !p.viewAmbiguous
 }
@@ -110,13 +136,28 @@ func (in *Inst) attrSet(t int) attribute.Set {
 	}
 	kvs := make([]attribute.KeyValue, len(keys))
 	for i, k := range keys {
-		kvs[i] = attribute.String(k, vals[i])
+		kvs[i] = kvOf(k, vals[i])
 	}
 	return attribute.NewSet(kvs...)
 }
 
 func newPlan(c *Case) *plan {
 	p := &plan{c: c}
+	p.badResource = !representable(refLabels(toKVs(c.Resource), c.Legacy), c.Legacy)
+	p.badConst = !representable((&checker{p: p}).constLabels(), c.Legacy)
+	p.badScope = make([]bool, len(c.Scopes))
+	for si, sc := range c.Scopes {
+		p.badScope[si] = !c.NoScopeInfo && !representable(scopeInfoLabels(sc, c.Legacy), c.Legacy)
+		p.unrep = p.unrep || p.badScope[si]
+	}
+	for i := range c.Insts {
+		p.obsFail = p.obsFail || c.Insts[i].obsFails() > 0
+		for t := 0; t < c.Insts[i].ntuples(); t++ {
+			set := c.Insts[i].attrSet(t)
+			p.badTuple = p.badTuple || !representable(refLabels(set.ToSlice(), c.Legacy), c.Legacy)
+		}
+	}
+	p.unrep = p.unrep || (p.badResource && !c.NoTargetInfo) || p.badConst || p.badTuple
 	// two scopes whose info series would carry the same label set
 	infos := map[string]bool{}
 	for _, sc := range c.Scopes {
@@ -160,7 +201,7 @@ func newPlan(c *Case) *plan {
 			p.typeConflict = p.typeConflict || wt(o.Kind) != wt(in.Kind)
 			p.helpConflict = p.helpConflict || (wt(o.Kind) == wt(in.Kind) && o.Desc != in.Desc)
 			if o.Name == in.Name && !isObservable(o.Kind) && !isObservable(in.Kind) && instrumentKind(o.Kind) == instrumentKind(in.Kind) &&
-				(o.ExpSize != 0 || o.ExDrop || in.ExpSize != 0 || in.ExDrop) {
+				(o.hasView() || in.hasView()) {
 				p.viewAmbiguous = true
 			}
 		}
@@ -225,6 +266,10 @@ type world struct {
 	earlyErr error
 	ghostReg *prometheus.Registry // Case.Ghost
 	ghost    *otelprom.Exporter
+
+	// onObserve, when set (before the first collection), is called at the
+	// start of every observable callback: a collaborator that takes its time.
+	onObserve func()
 }
 
 func (w *world) close() {
@@ -239,7 +284,7 @@ func (w *world) close() {
 func resFilter(c *Case) attribute.Filter {
 	ks := make([]attribute.Key, len(c.ResFilterKeys))
 	for i, k := range c.ResFilterKeys {
-		ks[i] = attribute.Key(k)
+		ks[i] = attribute.Key(dec(k))
 	}
 	if c.ResFilter == "deny" {
 		return attribute.NewDenyKeysFilter(ks...)
@@ -306,7 +351,7 @@ func build(c *Case) (*world, error) {
 	}
 	for i := range c.Insts {
 		in := &c.Insts[i]
-		if isObservable(in.Kind) || (in.ExpSize == 0 && !in.ExDrop) {
+		if isObservable(in.Kind) || !in.hasView() {
 			continue
 		}
 		// ONE view per instrument (two matching views would make two
@@ -315,6 +360,11 @@ func build(c *Case) (*world, error) {
 		var st sdkmetric.Stream
 		if in.ExpSize != 0 {
 			st.Aggregation = sdkmetric.AggregationBase2ExponentialHistogram{MaxSize: int32(in.ExpSize), MaxScale: int32(in.ExpScale)}
+		}
+		if in.boundsByView() {
+			// (the instrument option ignores an empty list: only a View can
+			// ask for a histogram without any boundary)
+			st.Aggregation = sdkmetric.AggregationExplicitBucketHistogram{Boundaries: boundsOf(in)}
 		}
 		if in.ExDrop {
 			st.AttributeFilter = attribute.NewDenyKeysFilter(exKey)
@@ -354,15 +404,36 @@ func build(c *Case) (*world, error) {
 			}
 			return obs[r]
 		}
+		fail := in.obsFails()
 		icb := func(_ context.Context, o metric.Int64Observer) error {
-			for t, v := range obsRow() {
+			if w.onObserve != nil {
+				w.onObserve()
+			}
+			row := obsRow()
+			for t, v := range row {
+				if fail == 2 && t >= (len(row)+1)/2 {
+					break
+				}
 				o.Observe(int64(v), sets[t])
+			}
+			if fail > 0 {
+				return errCallback
 			}
 			return nil
 		}
 		fcb := func(_ context.Context, o metric.Float64Observer) error {
-			for t, v := range obsRow() {
+			if w.onObserve != nil {
+				w.onObserve()
+			}
+			row := obsRow()
+			for t, v := range row {
+				if fail == 2 && t >= (len(row)+1)/2 {
+					break
+				}
 				o.Observe(float64(v)/8, sets[t])
+			}
+			if fail > 0 {
+				return errCallback
 			}
 			return nil
 		}
@@ -386,11 +457,19 @@ func build(c *Case) (*world, error) {
 			w.rec[i] = func(ctx context.Context, o metric.MeasurementOption, v int) { x.Add(ctx, float64(v)/8, o) }
 		case "i64hist":
 			var x metric.Int64Histogram
-			x, err = m.Int64Histogram(in.Name, metric.WithUnit(in.Unit), metric.WithDescription(in.Desc))
+			ho := []metric.Int64HistogramOption{metric.WithUnit(in.Unit), metric.WithDescription(in.Desc)}
+			if in.customBounds() && !in.boundsByView() {
+				ho = append(ho, metric.WithExplicitBucketBoundaries(boundsOf(in)...))
+			}
+			x, err = m.Int64Histogram(in.Name, ho...)
 			w.rec[i] = func(ctx context.Context, o metric.MeasurementOption, v int) { x.Record(ctx, int64(v), o) }
 		case "f64hist":
 			var x metric.Float64Histogram
-			x, err = m.Float64Histogram(in.Name, metric.WithUnit(in.Unit), metric.WithDescription(in.Desc))
+			ho := []metric.Float64HistogramOption{metric.WithUnit(in.Unit), metric.WithDescription(in.Desc)}
+			if in.customBounds() && !in.boundsByView() {
+				ho = append(ho, metric.WithExplicitBucketBoundaries(boundsOf(in)...))
+			}
+			x, err = m.Float64Histogram(in.Name, ho...)
 			w.rec[i] = func(ctx context.Context, o metric.MeasurementOption, v int) { x.Record(ctx, float64(v)/8, o) }
 		case "i64gauge":
 			var x metric.Int64Gauge
@@ -421,6 +500,39 @@ func build(c *Case) (*world, error) {
 		}
 	}
 	return w, nil
+}
+
+// errCallback is what a failing observable callback (Inst.ObsFail) returns.
+var errCallback = errors.New("c18: observable callback failed on purpose")
+
+func (in *Inst) obsFails() int {
+	if isObservable(in.Kind) {
+		return in.ObsFail
+	}
+	return 0
+}
+
+func (in *Inst) customBounds() bool {
+	return in.HasBounds && isHist(in.Kind) && !isObservable(in.Kind) && in.ExpSize == 0
+}
+
+// boundsByView: the boundaries are set by a View (always when there are none:
+// the instrument option ignores an empty list), else by the instrument option.
+func (in *Inst) boundsByView() bool {
+	return in.customBounds() && (len(in.Bounds) == 0 || in.BoundsView)
+}
+
+// hasView: the case registers a View for this instrument.
+func (in *Inst) hasView() bool {
+	return !isObservable(in.Kind) && (in.ExpSize != 0 || in.ExDrop || in.boundsByView())
+}
+
+func boundsOf(in *Inst) []float64 {
+	out := make([]float64, len(in.Bounds))
+	for i, b := range in.Bounds {
+		out[i] = float64(b)
+	}
+	return out
 }
 
 // the attribute a View filter drops (Inst.ExDrop) and its two values: with
@@ -614,7 +726,7 @@ func (k *checker) constLabels() map[string]string {
 	var kept []attribute.KeyValue
 	for _, a := range c.Resource {
 		if resFilterKeeps(c, a.K) {
-			kept = append(kept, attribute.String(a.K, a.V))
+			kept = append(kept, kvOf(a.K, a.V))
 		}
 	}
 	return refLabels(kept, c.Legacy)
@@ -641,9 +753,13 @@ func (k *checker) exact(tag string, mfs []*dto.MetricFamily, gerr error, rm *met
 	}
 	used := map[string]bool{}
 
+	lenient := false // further series of the family are not held against the exporter
 	info := func(name string, want []map[string]string) {
 		mf := fams[name]
 		used[name] = true
+		if len(want) == 0 && lenient {
+			return
+		}
 		if len(want) == 0 {
 			if mf != nil {
 				k.bad(name+"_unexpected", "%s: %s is exposed (%d series) although it is disabled / has no source", tag, name, len(mf.GetMetric()))
@@ -669,15 +785,22 @@ func (k *checker) exact(tag string, mfs []*dto.MetricFamily, gerr error, rm *met
 				k.bad(name+"_labels", "%s: %s: want exactly one series with labels %v, got series %v", tag, name, w, seriesLabels(mf))
 			}
 		}
-		if len(mf.GetMetric()) != len(want) {
+		if len(mf.GetMetric()) != len(want) && !lenient {
 			k.bad(name+"_series", "%s: %s has %d series, want %d", tag, name, len(mf.GetMetric()), len(want))
 		}
 	}
 
 	// target_info: the resource attributes, present unless disabled.
-	if c.NoTargetInfo {
+	switch {
+	case c.NoTargetInfo:
 		info("target_info", nil)
-	} else {
+	case k.p.badResource:
+		// a resource Prometheus cannot hold: what becomes of target_info is not
+		// asserted (whatever is exposed has passed the registry)
+		used["target_info"] = true
+		k.class(fams["target_info"] == nil, "unrepresentable_resource:target_info_left_out")
+		k.class(fams["target_info"] != nil, "unrepresentable_resource:target_info_exposed")
+	default:
 		info("target_info", []map[string]string{refLabels(toKVs(c.Resource), c.Legacy)})
 	}
 	// otel_scope_info: one series per scope that has metrics, unless disabled.
@@ -686,12 +809,17 @@ func (k *checker) exact(tag string, mfs []*dto.MetricFamily, gerr error, rm *met
 	// and version (the reserved labels cannot be overridden by an attribute
 	// of the same key), then translated like any attribute set.
 	var scopes []map[string]string
+	anyBadScope := false // a scope in use whose info series cannot be represented: nothing asserted about it
 	if !c.NoScopeInfo {
 		for _, sm := range rm.ScopeMetrics {
 			found := false
 			for si := range c.Scopes {
 				if sameScope(sm.Scope, c.Scopes[si]) {
-					scopes = append(scopes, scopeInfoLabels(c.Scopes[si], c.Legacy))
+					if !k.p.badScope[si] {
+						scopes = append(scopes, scopeInfoLabels(c.Scopes[si], c.Legacy))
+					} else {
+						anyBadScope = true
+					}
 					found = true
 					break
 				}
@@ -701,7 +829,9 @@ func (k *checker) exact(tag string, mfs []*dto.MetricFamily, gerr error, rm *met
 			}
 		}
 	}
+	lenient = anyBadScope
 	info("otel_scope_info", scopes)
+	lenient = false
 
 	constL := k.constLabels()
 	// families that carry an acceptable name of some instrument
@@ -741,6 +871,29 @@ func (k *checker) exact(tag string, mfs []*dto.MetricFamily, gerr error, rm *met
 				used[f.GetName()] = true
 			}
 		}
+		if k.p.badScope[in.Scope] {
+			// the scope's own labels cannot be represented: nothing is asserted
+			// about its instruments (the unchanged tree leaves the scope out)
+			k.class(mf == nil, "unrepresentable_scope:instruments_left_out")
+			k.class(mf != nil, "unrepresentable_scope:instruments_exposed")
+			continue
+		}
+		// the labels every data point must be exposed with; a point whose labels
+		// Prometheus cannot hold is not expected (and cannot be there)
+		wants := make([]map[string]string, len(pts))
+		canShow := make([]bool, len(pts))
+		for pi, pt := range pts {
+			want := refLabels(pt.attrs.ToSlice(), c.Legacy)
+			if !c.NoScopeInfo {
+				want["otel_scope_name"] = sc.Name
+				want["otel_scope_version"] = sc.Version
+			}
+			for n, v := range constL {
+				want[n] = v
+			}
+			wants[pi], canShow[pi] = want, representable(want, c.Legacy)
+			k.class(!canShow[pi], "unrepresentable_series(not expected)")
+		}
 		if len(pts) == 0 {
 			if mf != nil {
 				k.bad("phantom_family", "%s: instrument %d %q has no data points in the SDK but family %q is exposed", tag, i, in.Name, clip(mf.GetName()))
@@ -750,7 +903,10 @@ func (k *checker) exact(tag string, mfs []*dto.MetricFamily, gerr error, rm *met
 		// exponential histogram points: scale < -4 cannot be shown (nothing
 		// asserted), scale > 8 must be shown at schema 8
 		required, above8 := 0, int32(0)
-		for _, pt := range pts {
+		for pi, pt := range pts {
+			if !canShow[pi] {
+				continue
+			}
 			if e := pt.exp; e != nil {
 				k.class(e.unrepresentable(), "exp_point_scale_below_-4(not representable, nothing asserted)")
 				k.class(e.needsDownscale(), "exp_point_scale_above_8(want schema 8)")
@@ -815,14 +971,10 @@ func (k *checker) exact(tag string, mfs []*dto.MetricFamily, gerr error, rm *met
 			// (missing ones are reported one by one below)
 			k.bad("series_count", "%s: family %q has %d series, the SDK has %d data points", tag, clip(mf.GetName()), len(mf.GetMetric()), len(pts))
 		}
-		for _, pt := range pts {
-			want := refLabels(pt.attrs.ToSlice(), c.Legacy)
-			if !c.NoScopeInfo {
-				want["otel_scope_name"] = sc.Name
-				want["otel_scope_version"] = sc.Version
-			}
-			for n, v := range constL {
-				want[n] = v
+		for pi, pt := range pts {
+			want := wants[pi]
+			if !canShow[pi] {
+				continue
 			}
 			m := series[labelKey(want)]
 			if m == nil && pt.exp != nil && pt.exp.unrepresentable() {
@@ -1095,6 +1247,20 @@ func classify(c *Case, p *plan, info *vk.Info) {
 			}
 			san[s] = true
 		}
+		info.ClassIf(in.customBounds(), "histogram_with_custom_boundaries")
+		info.ClassIf(in.customBounds() && len(in.Bounds) == 0, "histogram_with_no_boundaries_at_all")
+		info.ClassIf(in.boundsByView(), "histogram_boundaries_set_by_view")
+		info.ClassIf(in.customBounds() && len(in.Bounds) == 1, "histogram_with_one_boundary")
+		info.ClassIf(in.customBounds() && len(in.Bounds) > 0 && in.Bounds[0] < 0, "histogram_with_negative_boundary")
+		info.ClassIf(in.obsFails() == 1, "observable_callback_fails_after_observing")
+		info.ClassIf(in.obsFails() == 2, "observable_callback_fails_half_way")
+		typed := false
+		for _, tu := range in.Tuples {
+			for _, v := range tu {
+				typed = typed || isTyped(v)
+			}
+		}
+		info.ClassIf(typed, "instrument_attribute_value_not_a_string")
 		info.ClassIf(in.ExDrop, "instrument_with_attribute_filter_view")
 		info.ClassIf(in.ExpSize != 0, "exp_histogram_instrument")
 		info.ClassIf(in.ExpSize != 0, fmt.Sprintf("exp_histogram_maxsize_%d_maxscale_%d", in.ExpSize, in.ExpScale))
@@ -1128,11 +1294,11 @@ func classify(c *Case, p *plan, info *vk.Info) {
 	for si, sc := range c.Scopes {
 		san := map[string]bool{}
 		for _, a := range sc.Attrs {
-			u := underscore(a.K, false)
+			u := underscore(dec(a.K), false)
 			reserved := u == "otel_scope_name" || u == "otel_scope_version"
-			info.ClassIf(a.K == u && reserved, "scope_attr_key_is_reserved_label")
-			info.ClassIf(a.K != u && reserved && c.Legacy, "scope_attr_key_sanitises_to_reserved_label(legacy: merged)")
-			info.ClassIf(a.K != u && reserved && !c.Legacy, "scope_attr_key_would_sanitise_to_reserved_label(utf8)")
+			info.ClassIf(dec(a.K) == u && reserved, "scope_attr_key_is_reserved_label")
+			info.ClassIf(dec(a.K) != u && reserved && c.Legacy, "scope_attr_key_sanitises_to_reserved_label(legacy: merged)")
+			info.ClassIf(dec(a.K) != u && reserved && !c.Legacy, "scope_attr_key_would_sanitise_to_reserved_label(utf8)")
 			info.ClassIf(san[u] && c.Legacy, "scope_attr_keys_collide_after_sanitisation(legacy)")
 			info.ClassIf(!reserved, "scope_attr_ordinary")
 			san[u] = true
@@ -1160,6 +1326,24 @@ func classify(c *Case, p *plan, info *vk.Info) {
 	info.ClassIf(p.clash && !p.clashSafe && !c.NoScopeInfo, "clash_not_acceptable:same_scope_name_and_version")
 	info.ClassIf(p.clash && p.viewAmbiguous, "clash_not_acceptable:view_matches_two_instruments")
 	info.ClassIf(p.clash && (p.odd || p.alias || p.scopeAlias), "clash_not_acceptable:other_weakness")
+	for _, a := range c.Resource {
+		info.ClassIf(isTyped(a.V), "resource_attribute_value_not_a_string")
+	}
+	for _, sc := range c.Scopes {
+		for _, a := range sc.Attrs {
+			info.ClassIf(isTyped(a.V), "scope_attribute_value_not_a_string")
+		}
+	}
+	info.ClassIf(p.badResource, "resource_not_valid_utf8")
+	info.ClassIf(p.badResource && !c.NoTargetInfo, "resource_not_valid_utf8_and_target_info_on")
+	info.ClassIf(p.badResource && !p.representableKeys(c.Resource), "resource_key_not_valid_utf8(utf8 scheme: unrepresentable)")
+	info.ClassIf(p.badConst, "constant_labels_not_valid_utf8(no series representable)")
+	for si := range c.Scopes {
+		info.ClassIf(p.badScope[si], "scope_attributes_not_valid_utf8")
+	}
+	info.ClassIf(p.badTuple, "instrument_attribute_value_not_valid_utf8")
+	info.ClassIf(p.unrep, "some_element_unrepresentable(registry must still accept, the rest exact)")
+	info.ClassIf(p.unrep && p.strong(), "some_element_unrepresentable(strong)")
 	info.ClassIf(p.odd, "weak:inconsistent_key_sets")
 	info.ClassIf(p.alias, "weak:attribute_sets_alias_after_merge")
 	info.ClassIf(p.strong(), "strong(exact oracle)")
@@ -1211,7 +1395,7 @@ func runSeq(c Case) ([]vk.Violation, vk.Info) {
 			}
 			continue
 		}
-		if cerr != nil {
+		if p.readerFailed(cerr) {
 			k.bad("manual_reader_error", "%s: ManualReader.Collect: %v", tag, cerr)
 			continue
 		}
@@ -1306,32 +1490,37 @@ func firstScrapes(k *checker, c *Case, rep int, errs *vk.ErrCapture) {
 		if g == c.FirstScrapers {
 			tag = fmt.Sprintf("fresh exporter %d, scrape after the concurrent first scrapes", rep+1)
 		}
-		k.legality(tag, r.mfs)
-		if r.err != nil && p.accepted() {
-			k.bad("gather_error", "%s: Gather returned an error: %v", tag, r.err)
-		}
-		// one scrape = one type per family, and every series is of that type
-		for _, mf := range r.mfs {
-			for _, m := range mf.GetMetric() {
-				ok := true
-				switch mf.GetType() {
-				case dto.MetricType_COUNTER:
-					ok = m.Counter != nil
-				case dto.MetricType_GAUGE:
-					ok = m.Gauge != nil
-				case dto.MetricType_HISTOGRAM:
-					ok = m.Histogram != nil
-				}
-				if !ok {
-					k.bad("family_mixed_types", "%s: family %q of type %v has a series of another type: %v", tag, clip(mf.GetName()), mf.GetType(), m)
-				}
-			}
-		}
+		k.firstScrape(tag, r.mfs, r.err)
 	}
 	if p.accepted() {
 		k.handled(fmt.Sprintf("fresh exporter %d, first scrapes", rep+1), errs)
 	} else {
 		errs.Reset()
+	}
+}
+
+// firstScrape: what every one of the concurrent first scrapes is held to.
+func (k *checker) firstScrape(tag string, mfs []*dto.MetricFamily, err error) {
+	k.legality(tag, mfs)
+	if err != nil && k.p.accepted() {
+		k.bad("gather_error", "%s: Gather returned an error: %v", tag, err)
+	}
+	// one scrape = one type per family, and every series is of that type
+	for _, mf := range mfs {
+		for _, m := range mf.GetMetric() {
+			ok := true
+			switch mf.GetType() {
+			case dto.MetricType_COUNTER:
+				ok = m.Counter != nil
+			case dto.MetricType_GAUGE:
+				ok = m.Gauge != nil
+			case dto.MetricType_HISTOGRAM:
+				ok = m.Histogram != nil
+			}
+			if !ok {
+				k.bad("family_mixed_types", "%s: family %q of type %v has a series of another type: %v", tag, clip(mf.GetName()), mf.GetType(), m)
+			}
+		}
 	}
 }
 
@@ -1431,7 +1620,7 @@ func concRun(k *checker, c *Case, rep int, errs *vk.ErrCapture) {
 			k.handled(tag, errs)
 		}
 		if p.strong() {
-			if cerr != nil {
+			if p.readerFailed(cerr) {
 				k.bad("manual_reader_error", "%s: ManualReader.Collect: %v", tag, cerr)
 			} else {
 				k.exact(tag, mfs, gerr, &rm, opt{upto: nw, skipSyncGauge: nw >= 2})
